@@ -144,7 +144,7 @@ def ts_refs(tokens):
                         if isinstance(x, str):
                             if x == "<":
                                 depth += 1
-                            elif x in (">", ">::"):
+                            elif x == ">":
                                 if depth == 0:
                                     break
                                 depth -= 1
@@ -153,17 +153,13 @@ def ts_refs(tokens):
                     if k < n and trait and (trait[-1] == "TS"):
                         # after `>` comes `::` then method
                         m = None
-                        if toks[k] == ">::" and k + 1 < n:
-                            m = toks[k + 1]
-                        elif toks[k] == ">" and k + 2 < n and toks[k + 1] == "::":
+                        if toks[k] == ">" and k + 2 < n and toks[k + 1] == "::":
                             m = toks[k + 2]
                         if isinstance(m, str):
                             out.append((render_ty(ty), m))
-            if t == "visit" and i + 1 < n and toks[i + 1] in ("::", "::<"):
+            if t == "visit" and i + 2 < n and toks[i + 1] == "::" and toks[i + 2] == "<":
                 # v . visit :: < V > ( )
-                j = i + 2
-                if toks[i + 1] == "::" and j < n and toks[j] == "<":
-                    j += 1
+                j = i + 3
                 depth = 0
                 ty = []
                 while j < n:
